@@ -9,8 +9,11 @@ Tie between `Model/Persist.lean` and the code
 Search (the main tie): REAL resume runs.  For a run of length T and EVERY checkpoint step k the state dicts of
 layer (+ trainer, + classifier) go through `torch.save`/`torch.load` (BytesIO) and `load_state_dict(strict=True)`
 into (fresh0) a freshly constructed instance, (a) a fresh instance that has seen one unrelated step, (b) an instance
-run on other data; the continuation is compared with the uninterrupted run with `torch.equal` on every output and
-every state variable (buffers, parameters, extras, derived reads).  Outside the property's proviso (lazily shaped
+run on other data, (same) an instance already run on the VERY tensor objects that are presented again after the restore
+(the caller's spike train kept as rows of one bool tensor), (shared2) two instances restored from ONE deserialised
+checkpoint object and stepped alternately, (rewind) one instance restored from one deserialised object, stepped, and
+restored from the same object again; the continuation is compared with the uninterrupted run with `torch.equal` on every
+output and every state variable (buffers, parameters, extras, derived reads).  Outside the property's proviso (lazily shaped
 recorders / `feedback_spikes` not yet materialised on one side; pending accumulator parts) the load must raise the
 strict-load `RuntimeError` — or resume exactly; silent divergence is a violation.
 """
@@ -60,6 +63,8 @@ SPEC = {
     ],
 }
 DRIVER = "drivers/C12.lean"
+# `reload <id>` = restore from the deserialised object the previous load used: for the model / specification a load like any other
+seqcheck.DRIVER_MAP[DRIVER] = lambda l: ("load" + l[6:]) if l.startswith("reload ") else l
 ERRS = {"RuntimeError", "ValueError", "TypeError", "AttributeError", "IndexError", "KeyError"}
 KEY_CLF = "C12:classifier:fresh-derived-buffers"
 KEY_ACC = "C12:accumulator:stale-reduction-cache"
@@ -188,7 +193,14 @@ class RealMachines:
     def __init__(self):
         self.m = {}
         self.ck = None
+        self.ckobj = None        # the deserialised checkpoint object of the last `load` (`reload` restores from it again)
+        self.pool = {}           # the caller's observation tensors: the same values are presented as the SAME tensor object
         self.poisoned = set()    # targets of a rejected load: partially loaded by torch, outside the model
+
+    def obs(self, tok):
+        if tok not in self.pool:
+            self.pool[tok] = obs_t(tok)
+        return self.pool[tok]
 
     def exec(self, line):
         tok = line.split()
@@ -215,14 +227,18 @@ class RealMachines:
                 assert red.data_.recordsz == n
                 self.m[mid] = ("reducer", red)
             return "ok"
-        if tok[0] != "load" and tok[1] in self.poisoned:
+        if tok[0] not in ("load", "reload") and tok[1] in self.poisoned:
             return "after-failed-load"
         if tok[0] == "save":
             self.ck = ser(self.m[tok[1]][1].state_dict())
+            self.ckobj = None
             return "ok"
-        if tok[0] == "load":
+        if tok[0] in ("load", "reload"):
+            # `load`: torch.load, then load_state_dict; `reload`: load_state_dict from the object the previous load used
+            if tok[0] == "load" or self.ckobj is None:
+                self.ckobj = deser(self.ck)
             try:
-                self.m[tok[1]][1].load_state_dict(deser(self.ck), strict=True)
+                self.m[tok[1]][1].load_state_dict(self.ckobj, strict=True)
             except RuntimeError as e:
                 if "Error(s) in loading state_dict" not in str(e):
                     raise
@@ -247,7 +263,7 @@ class RealMachines:
         op = tok[2:]
         if kind == "reducer":
             if op[0] == "push":
-                obj(obs_t(op[1]))
+                obj(self.obs(op[1]))
                 return "ok"
             if op[0] == "clear":
                 obj.clear(keepshape=op[1] == "T")
@@ -258,7 +274,7 @@ class RealMachines:
             raise AssertionError(op)
         rt = obj.rec
         if op[0] == "push":
-            rt.push(obs_t(op[1]), inplace=op[2] == "T")
+            rt.push(self.obs(op[1]), inplace=op[2] == "T")
             return "ok"
         if op[0] == "pop":
             r = rt.pop()
@@ -269,7 +285,7 @@ class RealMachines:
         if op[0] == "read":
             return "row " + row_s(rt.read(int(op[1])))
         if op[0] == "write":
-            rt.write(obs_t(op[1]), offset=int(op[2]), inplace=op[3] == "T")
+            rt.write(self.obs(op[1]), offset=int(op[2]), inplace=op[3] == "T")
             return "ok"
         if op[0] == "readrange":
             r = rt.readrange(int(op[1]), int(op[2]), forward=op[3] == "T")
@@ -292,28 +308,37 @@ class RealMachines:
         raise AssertionError(op)
 
 
-def obs_tok(rng, shape):
+def obs_tok(rng, shape, held=None):
+    """an observation token; with `held` (the tokens the caller already presented) an earlier one is presented AGAIN 40% of the
+    time - the real side keeps one tensor object per token, so this is the caller pushing a tensor it still holds"""
+    if held and rng.random() < 0.4:
+        same = [t for t in held if t.split(";")[0] == shp_s(shape)]
+        if same:
+            return rng.choice(same)
     P = 1
     for s in shape:
         P *= s
-    return f"{shp_s(shape)};" + (",".join(hx(rng.randint(-40, 80) / 8) for _ in range(P)) if P else "-")
+    tok = f"{shp_s(shape)};" + (",".join(hx(rng.randint(-40, 80) / 8) for _ in range(P)) if P else "-")
+    if held is not None:
+        held.append(tok)
+    return tok
 
 
 def b(x):
     return "T" if x else "F"
 
 
-def ring_op(rng, mid, n, shape):
+def ring_op(rng, mid, n, shape, held=None):
     op = rng.choice(["push", "push", "push", "pop", "peek", "read", "write", "readrange", "incr", "decr", "align", "reset"])
     o, L = rng.randint(0, 2 * n), rng.randint(1, n)
     if op == "push":
-        return f"op {mid} push {obs_tok(rng, shape)} {b(rng.random() < 0.5)}"
+        return f"op {mid} push {obs_tok(rng, shape, held)} {b(rng.random() < 0.5)}"
     if op in ("pop", "peek"):
         return f"op {mid} {op}"
     if op == "read":
         return f"op {mid} read {o}"
     if op == "write":
-        return f"op {mid} write {obs_tok(rng, shape)} {o} {b(rng.random() < 0.5)}"
+        return f"op {mid} write {obs_tok(rng, shape, held)} {o} {b(rng.random() < 0.5)}"
     if op == "readrange":
         return f"op {mid} readrange {L} {o} {b(rng.random() < 0.5)}"
     if op in ("incr", "decr"):
@@ -324,10 +349,15 @@ def ring_op(rng, mid, n, shape):
 
 
 def machine_case(rng, kind):
-    """source `a` runs k ops, target `b` (same or — sometimes — different configuration / laziness) runs m other ops,
-    checkpoint a → b, then both continue with the same operations"""
+    """source `a` runs k ops, target `b` (same or - sometimes - different configuration / laziness) runs m other ops,
+    checkpoint a -> b, then both continue with the same operations.  Restore modes: `single` (one torch.load, one restore);
+    `rewind` (restore, run on, restore AGAIN from the same deserialised object); `two` (a second target `c` of b's configuration
+    restored from the same deserialised object, b and c then run alternately).  Observation tensors are held by the caller and
+    presented again (same object) before and after the restore."""
     n = rng.choice([1, 2, 3, 4, 5])
     shape = rng.choice([(), (2,), (3,), (2, 2)])
+    mode = rng.choice(["single", "single", "rewind", "two"])
+    held = []
     lines = []
     if kind == "ring":
         z = f"zeros:{shp_s(shape)}"
@@ -343,17 +373,26 @@ def machine_case(rng, kind):
             if st_a == z and st_b.startswith("zeros") and rng.random() < 0.4:
                 nb_ = rng.choice([1, 2, 3, 4, 5])       # record-size mismatch: only where the shape check must fire
         lines += [f"new a ring {n} {st_a}", f"new b ring {nb_} {st_b}"]
+        if mode == "two":
+            lines.append(f"new c ring {nb_} {st_b}")
         for _ in range(rng.randint(0, 2 * n + 2)):
-            lines.append(ring_op(rng, "a", n, shape))
+            lines.append(ring_op(rng, "a", n, shape, held))
         for _ in range(rng.choice([0, 1, 1, 2, 2 * n + 1])):
-            lines.append(ring_op(rng, "b", nb_, shape_b))
-        lines += ["save a", "load b", "dump b"]
-        for _ in range(rng.randint(2, 2 * n + 3)):
-            lines += [ring_op(rng, "b", nb_, shape), "dump b"]
+            lines.append(ring_op(rng, "b", nb_, shape_b, held))
+        if mode == "two":
+            for _ in range(rng.choice([0, 1, 2])):
+                lines.append(ring_op(rng, "c", nb_, shape_b, held))
+        def cont(mid, cnt):
+            out = []
+            for _ in range(cnt):
+                out += [ring_op(rng, mid, nb_, shape, held), f"dump {mid}"]
+            return out
     else:
         fold = rng.choice(["ca", "ca", "pass"])
         ip = rng.random() < 0.5
         lines += [f"new a reducer {n} {fold} {b(ip)}", f"new b reducer {n} {fold} {b(ip)}"]
+        if mode == "two":
+            lines.append(f"new c reducer {n} {fold} {b(ip)}")
         def red_ops(mid, cnt, allow_clear):
             out = []
             for _ in range(cnt):
@@ -363,26 +402,47 @@ def machine_case(rng, kind):
                 elif u < 0.3:
                     out.append(f"op {mid} peek")
                 else:
-                    out.append(f"op {mid} push {obs_tok(rng, shape)}")
+                    out.append(f"op {mid} push {obs_tok(rng, shape, held)}")
             return out
         k = rng.randint(0, 2 * n + 3)
         lines += red_ops("a", k, True)
         if rng.random() < 0.25:
             lines.append("op a clear T")       # checkpoint right after a clear: `_initial` is True on shaped storage
         lines += red_ops("b", rng.choice([0, 1, 1, 2, 5]), rng.random() < 0.3)
-        lines += ["save a", "load b", "dump b"]
-        for op in red_ops("b", rng.randint(2, 2 * n + 3), True):
-            lines += [op, "dump b"]
+        if mode == "two":
+            lines += red_ops("c", rng.choice([0, 1, 2]), False)
+        def cont(mid, cnt):
+            out = []
+            for op in red_ops(mid, cnt, True):
+                out += [op, f"dump {mid}"]
+            return out
+    lines += ["save a", "load b", "dump b"]
+    if mode != "single":
+        # a target whose load is rejected is outside the model afterwards (no second restore into it): decided by a dry run
+        dry = RealMachines()
+        if [dry.exec(l) for l in lines[:-1]][-1] != "ok":
+            mode = "single"
+    if mode == "single":
+        lines += cont("b", rng.randint(2, 2 * n + 3))
+    elif mode == "rewind":
+        lines += cont("b", rng.randint(1, n + 1))
+        lines += ["reload b", "dump b"]
+        lines += cont("b", rng.randint(2, 2 * n + 3))
+    else:
+        lines += ["reload c", "dump c"]
+        for _ in range(rng.randint(2, 2 * n + 3)):
+            lines += cont(rng.choice(["b", "b", "c"]), 1)
+        lines += ["dump b", "dump c"]
     return lines
 
 
 def key_of_machine(case, d):
     kind = case[0].split()[2]
     line = case[d[0]].split()
-    what = line[0] if line[0] in ("load", "dump", "save") else line[2]
+    what = line[0] if line[0] in ("load", "reload", "dump", "save") else line[2]
     if line[0] == "dump" and d[0] > 0:
         prev = case[d[0] - 1].split()
-        what = "after-" + (prev[0] if prev[0] in ("load", "save") else prev[2])
+        what = "after-" + (prev[0] if prev[0] in ("load", "reload", "save", "dump") else prev[2])
     return f"C12:{d[1]}:{kind}:{what}"
 
 
@@ -405,7 +465,9 @@ def scenario(rng, idx, T, force=None):
               "clf": ({"classes": rng.choice([2, 3]), "decay": rng.choice([0.0, 0.125]), "proportional": bool(rng.random() < 0.5)}
                       if (force.get("clf") if "clf" in force else rng.random() < 0.35) else None),
               "clear_at": (rng.randrange(1, T) if rng.random() < 0.25 else None),
-              "other_steps": rng.choice([2, 3, 4, 5])}
+              "other_steps": rng.choice([2, 3, 4, 5]),
+              # the caller's spike train: rows of ONE bool tensor per driven connection (True) or separate float tensors
+              "xbool": bool(force["xbool"] if "xbool" in force else rng.random() < 0.6)}
         sim = Sim(sc, 0)
         U = sim.run_all()
         if U["nspikes"] > 0 or attempt == 5:
@@ -433,7 +495,11 @@ class Sim:
 
     def inputs(self, seed, T):
         g = nb.gen(seed)
-        X = self.net.gen_inputs(g, T, self.sc["p"])
+        if self.sc.get("xbool"):
+            big = [torch.rand(T, self.net.batch, *sh, generator=g) < self.sc["p"] for sh in self.net.input_shapes()]
+            X = [[bg[t] for bg in big] for t in range(T)]
+        else:
+            X = self.net.gen_inputs(g, T, self.sc["p"])
         R = [float(torch.randint(-2, 3, (1,), generator=g)) / 2 for _ in range(T)]
         L = [torch.randint(0, self.sc["clf"]["classes"] if self.sc["clf"] else 2, (self.net.batch,), generator=g) for _ in range(T)]
         return X, R, L
@@ -475,7 +541,10 @@ class Sim:
         return ser({k: v.state_dict() for k, v in self.objs().items() if v is not None})
 
     def load(self, raw):
-        sd = deser(raw)
+        self.load_obj(deser(raw))
+
+    def load_obj(self, sd):
+        """restore from an already deserialised checkpoint object (the caller may restore from it again)"""
         for k, v in self.objs().items():
             if v is not None:
                 v.load_state_dict(sd[k], strict=True)
@@ -488,6 +557,7 @@ class Sim:
         sc = self.sc
         X, R, L = self.inputs(sc["xseed"], sc["T"])
         U = {"ck": [], "out": [], "snap": [], "snap0": [], "nspikes": 0}
+        U["X0"] = [[x.clone() for x in xs] for xs in X]      # what the caller's input tensors hold
         for t in range(sc["T"]):
             U["ck"].append(self.state_bytes())
             U["snap0"].append(self.snap())
@@ -500,7 +570,7 @@ class Sim:
 
 
 def category(name: str) -> str:
-    for pat, cat in (("pointer", "pointer"), ("_initial", "reducer-flag"), ("_count", "reducer-count"), ("reducer_", "reducer-data"),
+    for pat, cat in (("exception", "exception"), ("pointer", "pointer"), ("_initial", "reducer-flag"), ("_count", "reducer-count"), ("reducer_", "reducer-data"),
                      ("clf.", "classifier"), ("adaptation", "adaptation"), ("voltage", "voltage"), ("refrac", "refrac"),
                      ("weight", "weight"), ("delay_", "delay"), ("bias", "bias"), ("feedback_spikes", "feedback"),
                      ("_pos", "pending"), ("_neg", "pending"), ("spike_", "spike-record"), ("current_", "current-record"),
@@ -533,29 +603,125 @@ def lazy(sc):
     return sc["trainer"] is not None or sc["net"]["layer"] == "recurrent"
 
 
+def inputs_touched(U, restore=True):
+    """rows of the caller's input tensors that no longer hold what the caller put there (restored afterwards)"""
+    X, X0 = U["XRL"][0], U["X0"]
+    bad = []
+    for t, (xs, x0s) in enumerate(zip(X, X0)):
+        for i, (x, x0) in enumerate(zip(xs, x0s)):
+            if not torch.equal(x, x0):
+                bad.append([t, i])
+                if restore:
+                    with torch.no_grad():
+                        x.copy_(x0)
+    return bad
+
+
 def resume_case(sc, U, k, tkind, variant):
     """returns (status, detail): status in ok | rejected | diverged | wrong-error"""
-    X, R, L = U["XRL"]
-    tg = make_target(sc, tkind, variant)
+    phase = {"at": "building the target"}
     try:
-        tg.load(U["ck"][k])
+        status, detail = resume_case_(sc, U, k, tkind, variant, phase)
+    except Exception as e:
+        if phase["at"] == "building the target":
+            inputs_touched(U)
+            raise
+        # the real code raised after an accepted load, where the uninterrupted run has a value
+        status, detail = "diverged", {"step": k, "when": phase["at"], "entry": "exception",
+                                      "what": f"{type(e).__name__}: {str(e)[:300]}"}
+    touched = inputs_touched(U)
+    if touched and isinstance(detail, dict):
+        detail["caller_inputs_overwritten"] = touched[:6]
+    return status, detail
+
+
+def follow(sc, U, tg, k, who=""):
+    """the restored instance `tg` is given the inputs of steps k.. (the very tensor objects of the uninterrupted run)"""
+    X, R, L = U["XRL"]
+    for t in range(k, sc["T"]):
+        d = follow_one(sc, U, tg, t, who)
+        if d:
+            return d
+    return None
+
+
+def follow_one(sc, U, tg, t, who=""):
+    X, R, L = U["XRL"]
+    o = tg.step(t, X, R, L, clear=(sc["clear_at"] == t))
+    d = nb.first_diff(U["out"][t], o)
+    if d:
+        return {"step": t, "when": who + "output", "entry": d[0], "what": d[1]}
+    d = nb.first_diff(U["snap"][t], tg.snap())
+    if d:
+        return {"step": t, "when": who + "state after step", "entry": d[0], "what": d[1]}
+    return None
+
+
+def try_load(tg, sd):
+    try:
+        tg.load_obj(sd)
     except RuntimeError as e:
         if "Error(s) in loading state_dict" in str(e):
             return "rejected", parse_load_error(str(e))
         return "wrong-error", f"{type(e).__name__}: {str(e)[:300]}"
     except Exception as e:
         return "wrong-error", f"{type(e).__name__}: {str(e)[:300]}"
-    d = nb.first_diff(U["snap0"][k], tg.snap())
-    if d:
-        return "diverged", {"step": k, "when": "immediately after load", "entry": d[0], "what": d[1]}
+    return None
+
+
+def resume_case_(sc, U, k, tkind, variant, phase):
+    """target kinds
+      fresh0 / a / b   see make_target (one torch.load per restore)
+      same             the target has already been run over the VERY tensor objects of the run (all T steps), is restored to
+                       step k and is given steps k.. again (rewind-and-replay of a caller who keeps the spike train in one tensor)
+      shared2          ONE deserialised checkpoint object restored into two instances (prior states a and b), which then run
+                       alternately: each must follow the uninterrupted run
+      rewind           ONE deserialised checkpoint object restored into an instance, which runs 1-2 steps and is then restored
+                       from the same object again"""
+    X, R, L = U["XRL"]
+    sd = deser(U["ck"][k])
+    if tkind == "same":
+        tg = Sim(sc, variant)
+        for t in range(sc["T"]):
+            tg.step(t, X, R, L)
+        targets = [("", tg)]
+    elif tkind == "shared2":
+        targets = [("first instance: ", make_target(sc, "a", variant)), ("second instance: ", make_target(sc, "b", variant + 1))]
+    elif tkind == "rewind":
+        targets = [("", make_target(sc, "a" if variant % 2 else "b", variant))]
+    else:
+        targets = [("", make_target(sc, tkind, variant))]
+    phase["at"] = "loading"
+    for who, tg in targets:
+        bad = try_load(tg, sd)
+        if bad:
+            return bad
+    phase["at"] = "continuing after the load"
+    for who, tg in targets:
+        d = nb.first_diff(U["snap0"][k], tg.snap())
+        if d:
+            return "diverged", {"step": k, "when": who + "immediately after load", "entry": d[0], "what": d[1]}
+    if tkind == "rewind":
+        tg = targets[0][1]
+        for t in range(k, min(k + 1 + (variant // 2) % 2, sc["T"])):
+            d = follow_one(sc, U, tg, t, "before the second restore: ")
+            if d:
+                return "diverged", d
+        bad = try_load(tg, sd)
+        if bad:
+            return bad[0], "second restore from the same deserialised checkpoint: " + bad[1]
+        d = nb.first_diff(U["snap0"][k], tg.snap())
+        if d:
+            return "diverged", {"step": k, "when": "immediately after the second restore from the same deserialised checkpoint",
+                                "entry": d[0], "what": d[1]}
+    if len(targets) == 1:
+        d = follow(sc, U, targets[0][1], k)
+        return ("diverged", d) if d else ("ok", None)
     for t in range(k, sc["T"]):
-        o = tg.step(t, X, R, L, clear=(sc["clear_at"] == t))
-        d = nb.first_diff(U["out"][t], o)
-        if d:
-            return "diverged", {"step": t, "when": "output", "entry": d[0], "what": d[1]}
-        d = nb.first_diff(U["snap"][t], tg.snap())
-        if d:
-            return "diverged", {"step": t, "when": "state after step", "entry": d[0], "what": d[1]}
+        for who, tg in targets:
+            d = follow_one(sc, U, tg, t, who)
+            if d:
+                return "diverged", d
     return "ok", None
 
 
@@ -606,8 +772,9 @@ def forced_coverage(thorough):
         fs.append({"synapse": sk, "delayed": True, "layer": "serial", "conn": nb.CONNECTIONS[i], "trainer": ["MSTDPET", "STDP"][i % 2],
                    "inplace": bool((i + 1) % 2)})
     for i, ck in enumerate(nb.CONNECTIONS):
-        fs.append({"conn": ck, "delayed": False, "layer": "serial", "trainer": "STDP", "clf": True})
-        fs.append({"conn": ck, "delayed": True, "layer": "biclique" if ck != "conv" else "serial", "trainer": None})
+        fs.append({"conn": ck, "delayed": False, "layer": "serial", "trainer": "STDP", "clf": True, "inplace": bool(i % 2), "xbool": True})
+        fs.append({"conn": ck, "delayed": True, "layer": "biclique" if ck != "conv" else "serial", "trainer": None,
+                   "inplace": bool((i + 1) % 2), "xbool": bool(i % 2)})
     fs.append({"layer": "recurrent", "trainer": None})
     fs.append({"layer": "recurrent", "trainer": "STDP", "clf": True})
     fs.append({"layer": "biclique", "trainer": "MSTDPET", "clf": True})
@@ -648,6 +815,10 @@ def resume_search(ctx, ex, thorough):
         variant = 0
         for k in range(sc["T"]):
             kinds = ["a", "b"] + (["fresh0"] if (k == 0 or k == 1 or (thorough and k % 5 == 0)) else [])
+            # restores that share something with the outside: the caller's own input tensors / one deserialised object
+            # (quick tier: one of the three per checkpoint step, rotating; thorough: all)
+            extra = ["same", "shared2", "rewind"]
+            kinds += extra if thorough else [extra[(idx + k) % 3]]
             # (layers and trainers cannot be copy.deepcopy'ed at all on the unchanged tree - WeakMethod hook wrappers and
             # record finalizers raise TypeError - so clone targets exist for the classifier stream only)
             for tkind in kinds:
@@ -862,8 +1033,10 @@ def explore(ctx) -> Exploration:
     cases = [machine_case(rng, kind) for kind in ("ring", "reducer") for _ in range(1500 if thorough else 250)]
     for c in cases:
         ex.count("machine", c[0].split()[2])
+        ex.count("machine-restore-mode", "two-targets-one-object" if any(l.startswith("reload c") for l in c)
+                 else ("rewind-same-object" if any(l.startswith("reload b") for l in c) else "single"))
     seqcheck.run_cases(ctx, DRIVER, cases, RealMachines, ex, key_of_machine, "C12",
-                       nontrivial=lambda case, real: any(r[0] == "ok" for l, r in zip(case, real) if l.startswith("load")))
+                       nontrivial=lambda case, real: any(r[0] == "ok" for l, r in zip(case, real) if l.startswith(("load", "reload"))))
     nrej = sum(1 for c in cases for l in c if l.startswith("load"))
     ex.extra["machine_cases"] = len(cases)
     # (B) (C) (D)
@@ -874,8 +1047,11 @@ def explore(ctx) -> Exploration:
                "trainers, classifier and reducers, fresh and stepped, against the model's save; (A2) seeded record / fold-reducer machine pairs "
                "(source ops, target ops, save→load, common continuation; 10-30% configuration or laziness mismatches) executed in Lean and on the "
                "real classes; (B) for forced-coverage + random network configurations and EVERY checkpoint step k of a run of length T: torch.save → "
-               "torch.load → load_state_dict(strict=True) into targets fresh0 / a (one unrelated step) / b (run on other data), continuation compared "
-               "with torch.equal on all outputs and state; (C) checkpoints between trainer() and update(); (D) classifier alone. Non-trivial = the "
+               "torch.load → load_state_dict(strict=True) into targets fresh0 / a (one unrelated step) / b (run on other data) / same (already run on "
+               "the very input tensor objects that are replayed; spike trains as rows of one bool tensor in ~60% of the scenarios) / shared2 (two "
+               "instances restored from one deserialised object, run alternately) / rewind (restored, run on, restored again from the same "
+               "object), continuation compared with torch.equal on all outputs and state; the machine cases of (A2) likewise restore once, twice "
+               "from one object (`reload`), or into two targets, and present held observation tensors again after the restore; (C) checkpoints between trainer() and update(); (D) classifier alone. Non-trivial = the "
                "load was accepted and the resumed run was compared over the whole continuation of a run in which spikes occurred")
     return ex
 
@@ -888,7 +1064,7 @@ def replay(ctx, data) -> int:
         return 1
     if "ops" in case:
         real = seqcheck.exec_real(RealMachines, case["ops"])
-        resp = ctx.run_driver(DRIVER, case["ops"])
+        resp = ctx.run_driver(DRIVER, seqcheck.to_driver(DRIVER, case["ops"]))
         for l, r, d in zip(case["ops"], real, resp):
             print(f"{l}\n    real: {r[0]}\n    lean: {d}")
         d = seqcheck.compare_case(case["ops"], real, resp)
